@@ -175,6 +175,15 @@ class MeshPolicy(BasePolicy):
             return frozenset({f"B:{expr.value}"})
         if isinstance(expr, ast.Call) and call_name(expr) in ("float", "np.float64") and len(expr.args) == 1:
             return self.eval(expr.args[0], state, flow)
+        if isinstance(expr, ast.Call):
+            # a BADS helper whose only statement-level result is ``return multiplier ** exponent``
+            ts = [t for t in self.A.prog.resolve_call(self.fn_, expr) if isinstance(t, FunctionInfo) and t.cls is self.A.R.bads]
+            if len(ts) == 1:
+                rets = [n for n in ast.walk(ts[0].node) if isinstance(n, ast.Return) and n.value is not None]
+                if len(rets) == 1 and not self.A.writes(ts[0]):
+                    v = rets[0].value
+                    if isinstance(v, ast.BinOp) and isinstance(v.op, ast.Pow) and canon(v.left) in MULT and path_of(v.right) in (POLL_E, SRCH_E):
+                        return _pow(path_of(v.right))
         return EMPTY
 
     def eval_unpack(self, value, i, n, state, flow):
